@@ -304,8 +304,6 @@ def check(case, ctx):
         ctx.v(ID, "raised:" + type(exc).__name__, "%s raised %s: %s" % (label, type(exc).__name__, str(exc)[:200]))
         return klass
     tgt = a if inplace else out
-    if inplace and out is not None:
-        ctx.v(ID, "inplace-returns", "%s returned %s, expected None" % (label, common.brief_res(out)))
     if not common.is_da(tgt):
         ctx.v(ID, "not-dimarray", "%s: target is %s" % (label, type(tgt).__name__))
         return klass
@@ -318,8 +316,12 @@ def check(case, ctx):
         ctx.v(ID, "axes-touched", "%s: axes changed by the assignment: %r" % (label, [ax.values.tolist() for ax in tgt.axes]))
     if monitors.freeze(tgt.attrs) != before_attrs:
         ctx.v(ID, "attrs-touched", "%s: metadata changed by the assignment: %r" % (label, tgt.attrs))
-    if not inplace and np.shares_memory(out.values, a.values):
-        ctx.v(ID, "copy-shares-memory", "%s: returned copy shares memory with the original" % label)
+    if not inplace:
+        # "With inplace=False the original array is left unchanged"
+        if a.values.dtype != m.values.dtype or not model.values_eq(a.values, m.values):
+            ctx.v(ID, "original-modified", "%s with inplace=False changed the original: %s (was %s)" % (label, model.brief(a.values), model.brief(m.values)))
+        elif tuple(monitors.snap_axis(ax) for ax in a.axes) != before_axes or monitors.freeze(a.attrs) != before_attrs:
+            ctx.v(ID, "original-modified", "%s with inplace=False changed the original's axes or metadata" % label)
     # ---- read back through the same index
     if spelling != 'ndmask' and len(coords) == len(set(coords)):
         rb, rexc = ctx.call("read-back " + label, lambda: tgt.take(tuple(case["idx"]), indexing='label'), operands=(tgt,))
